@@ -215,6 +215,8 @@ def check_lookup_options(R, F):
 
 
 def check(R, F):
+    from rules.name_rules import check_raw_name_comparisons
+    check_raw_name_comparisons(R, F)
     _FACTS[0] = F
     check_lookup_options(R, F)
 
